@@ -22,7 +22,7 @@ fn main() {
                 "vm_align" => {
                     unum(toks[2]) == vvm::VerifVM::MIN_ALIGNMENT && unum(toks[3]) == vvm::VerifVM::MAX_ALIGNMENT
                 }
-                _ => true,
+                _ => vvm::comp::cfg(&toks[1..]),
             };
             writeln!(out, "{}", if ok { "ok" } else { "cfg-mismatch" }).unwrap();
             continue;
